@@ -180,8 +180,9 @@ def user_recursion(code):
     return False
 
 
-BOMB_FN = re.compile(r"\b(range|linspace|str_rep|lpad|rpad|replicate|random_sample|foldl|map|sum)\s*\(")
-BIG_NUM = re.compile(r"\d{7,}|\de\+?[6-9]\b|\de\+?\d{2,}")
+BOMB_FN = re.compile(r"\b(range|linspace|str_rep|str_repeat|lpad|rpad|replicate|random_sample|foldl|map|sum|fibonacci|lucas|catalan|"
+                     r"binom|factorial|falling_factorial|rand_binom|rand_poisson|rand_geom|take|drop|element_at)\s*\(")
+BIG_NUM = re.compile(r"\d{5,}|\de\+?[4-9]\b|\de\+?\d{2,}|\binf\b|\^\s*\d{2,}")
 
 
 def resource_bomb(code):
